@@ -925,6 +925,23 @@ func (v Value) toReflectValue(typ reflect.Type) (reflect.Value, error) {
 	panic(fmt.Errorf("invalid conversion of %v (%v) to reflect.Type: %v", v.kind, v, typ))
 }
 
+// toElementValue is toReflectValue for a store into a bridged Go container: a value that has no
+// conversion at all (toReflectValue panics with a plain Go error there) is reported as an error.
+func (v Value) toElementValue(typ reflect.Type) (rv reflect.Value, err error) {
+	defer func() {
+		if caught := recover(); caught != nil {
+			if _, isException := caught.(*exception); !isException {
+				if plain, ok := caught.(error); ok {
+					rv, err = reflect.Value{}, fmt.Errorf("TypeError: %s", plain.Error())
+					return
+				}
+			}
+			panic(caught)
+		}
+	}()
+	return v.toReflectValue(typ)
+}
+
 // panicConversionError raises the error of a failed element/key conversion as the
 // JavaScript RangeError/TypeError its text names, so that scripts can catch it.
 func panicConversionError(err error) {
